@@ -564,5 +564,17 @@ def r6_tables_belong_to_their_grammar(chk):
     chk.floor('C17.R6', 4, 'two yacc.yacc and two lex.lex calls')
 
 
-RULES = [r1_inclusion_and_conflicts, r2_shared_terms, r3_added_alternatives, r4_lexer_tables, r5_factories, r6_tables_belong_to_their_grammar]
+
+def r7_class_tables_not_mutated(chk):
+    """dialect classes and code generators derive tables from each other: a derived table must be a copy"""
+    common.no_mutation_of_class_tables_through_aliases(chk, 'C17.R7', sorted(r for r in chk.model.modules if r.startswith(('pysmi/lexer/', 'pysmi/parser/', 'pysmi/codegen/', 'pysmi/compiler.py'))), floor=4)
+
+
+
+def r8_format_arity(chk):
+    """the factories' error messages are built before the package error is raised"""
+    common.format_arity(chk, 'C17.R8', ['pysmi/parser/smi.py', 'pysmi/lexer/smi.py', 'pysmi/parser/dialect.py'], floor=10)
+
+
+RULES = [r1_inclusion_and_conflicts, r2_shared_terms, r3_added_alternatives, r4_lexer_tables, r5_factories, r6_tables_belong_to_their_grammar, r7_class_tables_not_mutated, r8_format_arity]
 THOROUGH_RULES = [r1_thorough_all_subsets]
